@@ -99,7 +99,7 @@ class Leaves(object):
         m = env.formula_manager
         self.m = m
         self.types = {"bool": BOOL, "int": INT, "real": REAL, "bv": BVType(W), "str": STRING,
-                      "arr": ArrayType(INT, INT)}
+                      "arr": ArrayType(INT, INT), "arrbv": ArrayType(BVType(W), BVType(W))}
         self.syms = {s: [m.Symbol("%s%d" % (s, i), t) for i in range(NLEAF)]
                      for s, t in self.types.items()}
 
@@ -121,6 +121,9 @@ class Leaves(object):
             return m.LE(f, self.leaf(sort, 1))
         if sort == "arr":
             return m.Equals(m.Select(f, self.leaf("int", 0)), self.leaf("int", 1))
+        if sort == "arrbv":
+            # a bit-vector operator directly on a read of the nested array (its width is asked for)
+            return m.Equals(m.BVNot(m.Select(f, self.leaf("bv", 0))), self.leaf("bv", 1))
         return m.Equals(f, self.leaf(sort, 1))
 
 
@@ -153,6 +156,7 @@ def _operators():
         binop("plus" + sfx, s, "Plus")
         binop("minus" + sfx, s, "Minus", (0, 1))
         binop("times" + sfx, s, "Times")
+        binop("div" + sfx, s, "Div", (0, 1))
     binop("bvadd", "bv", "BVAdd")
     binop("bvand", "bv", "BVAnd")
     binop("bvxor", "bv", "BVXor")
@@ -162,7 +166,7 @@ def _operators():
     O["bvextract-concat"] = ["bv",
                              lambda L, f, k: L.m.BVExtract(L.m.BVConcat(L.leaf("bv", k), f), W, 2 * W - 1),
                              None]
-    for s in ("bool", "int", "real", "bv", "str", "arr"):
+    for s in ("bool", "int", "real", "bv", "str", "arr"):       # (arrbv: store-bv only)
         O["ite-%s-p0" % s] = [s, (lambda s: lambda L, f, k: L.m.Ite(L.cond(s, f, k), L.leaf(s, k), L.leaf(s, k + 1)))(s),
                               (lambda s: lambda L, f, k: L.m.Ite(L.cond(s, f, k), f, L.leaf(s, k)))(s)]     # 0+1
         O["ite-%s-p1" % s] = [s, (lambda s: lambda L, f, k: L.m.Ite(L.leaf("bool", k), f, L.leaf(s, k)))(s),
@@ -177,6 +181,9 @@ def _operators():
             L.leaf("bool", k), f, L.m.Ite(L.leaf("bool", k + 1), L.leaf(s, k), L.leaf(s, k + 1))))(s), None]
     O["store"] = ["arr", lambda L, f, k: L.m.Store(f, L.leaf("int", k), L.leaf("int", k + 1)),
                   lambda L, f, k: L.m.Store(f, L.leaf("int", k), L.m.Select(f, L.leaf("int", k + 1)))]
+    # memory-copy chains over an array of bit-vectors: mem' = store(mem, dst, select(mem, src))
+    O["store-bv"] = ["arrbv", lambda L, f, k: L.m.Store(f, L.leaf("bv", k), L.leaf("bv", k + 1)),
+                     lambda L, f, k: L.m.Store(f, L.leaf("bv", k), L.m.Select(f, L.leaf("bv", k + 1)))]
     O["select-store-v"] = ["arr", lambda L, f, k: L.m.Store(L.leaf("arr", k), L.leaf("int", k),
                                                              L.m.Select(f, L.leaf("int", k + 1))),
                            None]
@@ -196,7 +203,7 @@ CLOSE = {
     "store-const": lambda L, f, n: L.m.Equals(L.m.Select(f, L.m.Int(n + 7)), L.leaf("int", 1)),
     "store-const-samevalue": lambda L, f, n: L.m.Equals(L.m.Select(f, L.m.Int(n + 7)), L.m.Int(7)),
 }
-QUICK_SKIP = ("plus-real", "minus-real-l", "minus-real-r", "times-real")   # thorough only
+QUICK_SKIP = ("plus-real", "minus-real-l", "minus-real-r", "times-real", "div-real-l", "div-real-r")   # thorough only
 
 
 # constructor applications put on top of a family term of each sort ("type check at construction")
@@ -229,6 +236,12 @@ def tops(L, sort, f):
     elif sort == "arr":
         i = L.leaf("int", 0)
         out += [("select", lambda: m.Select(f, i)), ("store", lambda: m.Store(f, i, i))]
+    elif sort == "arrbv":
+        i = L.leaf("bv", 0)
+        out += [("select", lambda: m.Select(f, i)), ("store", lambda: m.Store(f, i, i)),
+                ("bvnot-select", lambda: m.BVNot(m.Select(f, i))), ("bvadd-select", lambda: m.BVAdd(m.Select(f, i), i)),
+                ("bvextract-select", lambda: m.BVExtract(m.Select(f, i), 0, 0)),
+                ("bvult-select", lambda: m.BVULT(i, m.Select(f, i)))]
     return out
 
 
